@@ -240,6 +240,16 @@ def call(ex, node, name, st):
         if len(facs) == 1 and isinstance(facs[0], SliceSeqV) and not node.keywords:
             return TupSeqV(facs[0].n, [facs[0]], "tuple")
         raise E.Unsupported(f"product of {len(facs)} factors")
+    if name == "set" and nargs == 0:
+        return ("sset", ())  # an empty set that is only ever extended with .add(x) and tested with `in`: a finite list
+    if name in ("toolz.partition", "partition") and nargs == 2:
+        # toolz.partition(n, seq) on a fixed-length sequence: consecutive n-tuples (a trailing remainder is dropped)
+        nv = z3.simplify(AI(0))
+        seq = A(1)
+        if z3.is_int_value(nv) and isinstance(seq, TupV):
+            k = nv.as_long()
+            return TupV([TupV(seq.items[i:i + k], "tuple") for i in range(0, len(seq.items) - k + 1, k)], "tuple")
+        raise E.Unsupported("partition of a symbolic sequence")
     if name == "set":
         v = A(0)
         if isinstance(v, (SeqV, TupV)):
@@ -248,6 +258,15 @@ def call(ex, node, name, st):
     if name == "dict":
         if nargs == 0 and not node.keywords:
             return ("emptydict",)
+        a0 = node.args[0] if nargs == 1 else None
+        if isinstance(a0, ast.Call) and ex.dotted(a0.func) == "zip" and len(a0.args) == 2 and not node.keywords:
+            # dict(zip(keys, values)) over fixed-length sequences of ints: successive insertions (later keys win)
+            ks, vs = ex.eval(a0.args[0], st), ex.eval(a0.args[1], st)
+            if isinstance(ks, TupV) and isinstance(vs, TupV):
+                m = MapV.empty("int")
+                for k_, v_ in zip(ks.items, vs.items):
+                    m = m.set(S.as_int(ex.need_int(k_, st, node)), ex.need_int(v_, st, node))
+                return m
         raise E.Unsupported("dict(...)")
     if name == "sum":
         a0 = node.args[0]
@@ -295,6 +314,18 @@ def call(ex, node, name, st):
         if isinstance(v, RealV):
             return I(z3.ToInt(v.t))
         return I(S.as_int(ex.need_int(v, st, node)))
+    if name in ("reduce", "functools.reduce") and nargs in (2, 3) and ex.dotted(node.args[0]) in ("mul", "operator.mul"):
+        # reduce(mul, xs[, initial]) over a fixed-length tuple of ints: the product
+        v = A(1)
+        if isinstance(v, TupV):
+            r = AI(2) if nargs == 3 else None
+            for x in v.items:
+                t = S.as_int(ex.need_int(x, st, node))
+                r = t if r is None else r * t
+            if r is None:
+                raise E.Unsupported("reduce of an empty sequence without initial value")
+            return I(r)
+        raise E.Unsupported("reduce(mul, symbolic sequence)")
     if name in ("math.prod",):
         v = A(0)
         if isinstance(v, TupV):
@@ -517,6 +548,8 @@ def method(ex, base, attr, args, st, node):
         w = ex.fresh_int("popidx")
         st.pc.append(z3.And(0 <= w, w < S.f_len(t)))
         return I(S.f_at(t, w))
+    if isinstance(base, tuple) and base and base[0] == "sset" and attr == "add":
+        raise E.Unsupported("set.add used as an expression")
     if isinstance(base, MapV):
         if attr == "items":
             return ("items", base)
